@@ -6,7 +6,7 @@ CONSTANTS
   MaxPersists = 3
   MaxDeletes = 2
   MaxLoads = 1
-  DirectLoad = FALSE
+  DirectLoad = TRUE
   FirstOnlyModified = FALSE
-INVARIANTS QueueFits LayersParallel IndexesAgree StatsExact ReopenSeesAll BtreeCount DurableIndexesAgree
+INVARIANTS IndexesAgree StatsExact
 CHECK_DEADLOCK FALSE
